@@ -197,3 +197,4 @@ def run(ctx):
             progs.append(core.impl_loads(text)[1])
     common.loads_corr(ctx, texts, "LOADS(tdm)")
     c01.dumps_corr(ctx, progs)
+    c01.unparse_corr(ctx, progs)
